@@ -1,20 +1,27 @@
 CONFIG = dict(
     id="C01",
     engine="bubble-actor",
-    technique="Lean 4 invariant proofs over all op lists of a small-step model of doRequestEx/handleResponse/checkExpired "
+    technique="Lean 4 invariant proofs over all op lists of a small-step model of doRequestEx/handleResponse/checkExpired, the node-level app.Request/Notify no-route branch and ResponseEx's reply decision "
               "+ differential correspondence with the real actorex/service.Service in a testing/synctest bubble (virtual clock) "
               "+ the exactly-once predicate evaluated on the implementation's own callback log / pending table",
     level_text="Machine-checked proof in Lean 4 that in the model of the service request core every issue instance's callback is invoked at most once, "
                "a reply/remote-error completion only comes from the response carrying the id the instance is registered under (first one processed, decoded content), "
                "a timeout only from the expiry scan strictly after issue time + 30000 ms, unknown/late/duplicate responses leave the state untouched, "
-               "the table equals issued-minus-removed (notifications and serialisation failures leave nothing), the timer is armed while anything is pending and a scan "
+               "the table equals issued-minus-removed (notifications and serialisation failures leave nothing), the timer is armed while anything is pending (proved, no longer a hypothesis of the scan theorems; an idle scan frees it and the next request re-arms it) and a scan "
                "completes everything that is due (a panicking timeout callback counts as that instance's single completion, aborts the scan and leaves the rest for the next scans, "
                "each of which removes at least one due entry) — for all op lists, callback behaviours, scan orders, wrap bounds, under the explicit id guard (itself derived from a counting bound). "
+               "Lower bound, proved by induction over all continuations: a request issued with a callback is at every later moment either still registered (with its callback and deadline) or has been called back exactly once "
+               "(request_never_lost); a response processed for a registered id does invoke that callback with its decoded content — also when its type name cannot be decoded (repaired D22) — (response_completes, reply_completes_for_ever, undecodable_reply_completes); "
+               "once the deadline has passed, one expiry scan at a free moment followed by panic-free callbacks (exactly_once_eventually), or — callbacks may panic — more free-moment scans than table entries plus requests issued since "
+               "(exactly_once_despite_panics), leave the callback count at exactly 1: the fairness hypothesis is explicit in the op list. "
+               "The node-level no-route branch (app.Request/QuerySession/Kick -> ErrorNoService through the callback, app.Notify -> nothing) is an op of the model: completed at once, exactly once, for ever, nothing registered/sent/armed; "
+               "ResponseEx answers exactly the ids AllocReqId can hand out with a sender (never id 0). "
                "The model is tied to the Go code on every run by executing both on thousands of generated histories (1-40 outstanding requests, duplicates, late replies, "
-               "deadline +-1 ms, nil callbacks, re-entrant callbacks, unserialisable messages, id wrap) and the property predicate is evaluated on the implementation's observations.",
+               "deadline +-1 ms, nil callbacks, re-entrant callbacks, unserialisable messages, replies of an unregistered type, unroutable node-level requests/notifies at top level and inside callbacks, id wrap) and the property predicate is evaluated on the implementation's observations.",
     level_note="Trusted: Lean kernel; the harness/driver line protocol; proto.actor local delivery (FIFO, once); testing/synctest's virtual clock; timer.Mgr's re-arm-after-callback period "
                "(modelled in the driver: ticks at arm time + k*1000 ms). Assumed, not proved here: callbacks run on the service goroutine (C04; observed per callback by goroutine id), "
-               "fairness of the 1 s timer (C14), callbacks do not panic. The theorems are about the model; the differential run ties it to the code on sampled histories only.",
+               "that the 1 s timer does fire while armed (C14: the liveness theorems take the scans as explicit ops of the history), callbacks invoked by handleResponse do not panic (actor restart: see assumptions; panics of timeout callbacks are modelled). "
+               "The theorems are about the model; the differential run ties it to the code on sampled histories only.",
     lean_targets=["Cell2v.Props.C01", "modeld_c01"],
     driver="modeld_c01",
     driver_root="Cell2v.Driver.C01",
@@ -22,7 +29,11 @@ CONFIG = dict(
     required_theorems=["cb_at_most_once", "cb_is_right_reply", "timeout_only_after_deadline", "late_dup_unknown_dropped",
                        "completed_not_pending", "no_residue", "notify_never_registers", "serialize_failure_leaves_nothing",
                        "armed_while_pending", "tick_completes_due", "panic_aborts_scan_only", "scan_removes_one",
-                       "guard_implies_not_collided", "id_guard_by_counting", "d10_witness", "d18_witness"],
+                       "guard_implies_not_collided", "id_guard_by_counting", "d10_witness", "d18_witness",
+                       "response_completes", "reply_completes_for_ever", "undecodable_reply_completes", "request_never_lost", "exactly_once_eventually",
+                       "exactly_once_despite_panics", "noroute_completes_once", "noroute_once_for_ever", "noservice_only_from_noroute",
+                       "noroute_never_registers", "responds_exactly_to_requests", "idle_scan_frees_timer",
+                       "d22_witness", "d22_fixed", "restart_id_reuse_witness"],
     harness_pkg="./c01",
     mode="diff",
     reset_prefix="reset",
@@ -37,9 +48,10 @@ CONFIG = dict(
     rule="op lines from one PRNG (VERIF_SEED), interpreted against a real service.Service (embedded in a NodeService, own run-service goroutine, SmoothFrameMailbox) and a scripted peer service "
          "inside one synctest bubble: cases of 10-80 ops with 1-40 outstanding requests; requests with callback / nil callback / unserialisable message, notifies, callback scripts that issue "
          "further requests and notifies (nesting <= 3, including synchronous serialisation-failure callbacks) and that panic when run as a timeout completion "
-         "(alone or with several entries due in the same scan, callback and nil-callback ones mixed); replies ok / empty / error / undecodable to pending, completed (late, duplicate), "
+         "(alone or with several entries due in the same scan, callback and nil-callback ones mixed); node-level app.Request (with / without callback) and app.Notify whose route finds no target, "
+         "at top level and as script items inside reply / timeout / serialisation-failure / no-route callbacks (X(..), x, y; instances of the model's `noroute` op); replies ok / empty / error / undecodable body / unregistered type name (D22) to pending, completed (late, duplicate), "
          "notify and unknown instances; raw responses for id 0, small, MaxReqId, MaxInt32 and pending ids; clock advances aimed at deadline-1000..deadline+2000 including deadline-1, deadline, "
-         "deadline+1 and the scan instants, long advances; allocator preset near MaxReqId (wrap) and at random values; requests and notifies to a peer that is a real service with an apimapper API dispatcher whose handler keeps the completion callback and completes it later, out of order, with other requests dispatched in between; clock advances during which the service goroutine is parked in a handler while 999-1300 zero-delay timers overflow timer.Mgr's queue and an expiry tick falls into the window (delivered late, the period restarts there; the run-service loop's 2 ms busy-frame throttle is part of the op), followed by a request to the silent peer and +31 s; node-level app.Request without a route, and app.Request / app.Notify routed through the real cluster directory (UpdateClusterTopology + address resolver) to a peer that answers at once and to one that holds requests, also unroutable and unserialisable notifies; ok replies with the all-default value 0 and replies of the field-less type EmptyArg (zero bytes on the wire, must arrive non-nil and of their type), error replies with int32 codes from the whole range. "
+         "deadline+1 and the scan instants, long advances; allocator preset near MaxReqId (wrap) and at random values; requests and notifies to a peer that is a real service with an apimapper API dispatcher whose handler keeps the completion callback and completes it later, out of order, with other requests dispatched in between; clock advances during which the service goroutine is parked in a handler while 999-1300 zero-delay timers overflow timer.Mgr's queue and an expiry tick falls into the window (delivered late, the period restarts there; the run-service loop's 2 ms busy-frame throttle is part of the op), followed by a request to the silent peer and +31 s; app.Request / app.Notify routed through the real cluster directory (UpdateClusterTopology + address resolver) to a peer that answers at once and to one that holds requests, also unroutable and unserialisable notifies; ok replies with the all-default value 0 and replies of the field-less type EmptyArg (zero bytes on the wire, must arrive non-nil and of their type), error replies with int32 codes from the whole range. "
          "A `crowd` stream spawns 3-24 services from one props (one scheDisp / run-service goroutine), parks that goroutine inside a posted closure, lets one foreign goroutine per service "
          "deliver a reply (more than the 9-slot dispatcher queue holds), releases it and checks that every reply callback, timer callback and posted closure ran on the one goroutine, never two at once. "
          "The order in which one scan runs several timeout callbacks (Go map order), and which nil-callback entries it had already removed before each of them, "
@@ -48,14 +60,19 @@ CONFIG = dict(
     trusted_base=[
         "Lean 4.33.0 kernel; axioms of every property theorem audited on each run (allowed: propext, Classical.choice, Quot.sound)",
         "hand-written model lean/Cell2v/Model/Service.lean tied to the Go code by the differential run of this check (harness/c01 + modeld_c01)",
+        "the answering peers are real services: ResponseEx's decision is evaluated by the model function respondsTo for every `deliver`",
         "driver-level model of the expiry timer's phase (armed at T: scans at T+1000k; a tick that falls into a window in which the service goroutine is busy is delivered at its end, +2 ms loop throttle) and of callback scripts (lean/Cell2v/Driver/C01.lean)",
-        "go1.26 testing/synctest virtual clock; proto.actor local message delivery; harness canonicalisation (errors -> ok/rerr/err/timeout/noservice, pending ids sorted)",
+        "go1.26 testing/synctest virtual clock; proto.actor local message delivery; harness canonicalisation (errors -> ok/rerr/err/timeout/noservice, pending ids sorted; status `restarted` when the supervisor replaced the requester object)",
     ],
     assumptions=[
-        "the id guard: an id is not re-allocated while an entry stored under it is pending (proved from: fewer than M-1 allocations during any entry's life)",
-        "a completion callback invoked by handleResponse returns without panicking (such a panic escalates through the mailbox to the actor supervisor, which restarts "
-        "the requester as a fresh Service: a different regime, kept out of the generator); panics of timeout callbacks (recovered by timer.Mgr) ARE modelled (Op.panic), generated and proved about",
-        "all calls into the service happen on its own goroutine (C04); the 1 s timer keeps firing while armed (C14)",
-        "a response with an unknown type name is outside the model (protoactor's Deserialize dereferences a nil message type)",
+        "the id guard: an id is not re-allocated while an entry stored under it is pending (proved from: fewer than M-1 allocations during any entry's life) - per incarnation of the service",
+        "a completion callback invoked by handleResponse returns without panicking. If it panics, the mailbox escalates, the supervisor restarts the actor and the producer builds a fresh Service "
+        "(empty table, request ids from 1 again, same run-service goroutine): the old incarnation's pending requests are not completed by their replies (the orphaned object's 1 s timer still times them out), "
+        "and a reply addressed to an old id completes an UNRELATED request of the new incarnation that was given the same id - 'the response that answers that very request' fails with no wrap of 2^31 ids "
+        "(reproduced on the Go code: opt-in harness test TestRestartWitness; model: theorem restart_id_reuse_witness). Kept out of the generator; every theorem is about one incarnation. "
+        "Panics of timeout callbacks (recovered by timer.Mgr) ARE modelled (Op.panic), generated and proved about; a reply that cannot be decoded no longer crashes the requester (D22, repaired, modelled, generated)",
+        "all calls into the service happen on its own goroutine (C04; observed per callback by goroutine id); the 1 s timer keeps firing while armed (C14) - the liveness theorems state this as scans present in the op list",
+        "the requesting service is not stopped while requests are pending (actor.Stop stops the run service: pending callbacks are dropped, no op for it)",
+        "a completion callback run synchronously by the issuing call (serialisation failure, no route) that panics at top level is outside the model (the generator's scripts panic only under a timeout completion)",
     ],
 )
